@@ -249,6 +249,31 @@ Definition op_del (fr : frec) (tag ref : Z) : frec * wlog :=
       end
   end.
 
+(** rewriting the record of an EXISTING object the way Vdetach / VSdetach do it: HDreuse_tagref (HTPupdate of the
+    descriptor to an invalid offset and length, tag and ref kept), then Hputelement under the same tag/ref, which
+    Hstartaccess therefore treats as a new element: new space at the end of the file, old bytes untouched *)
+Definition op_rewrite (fr : frec) (tag ref len : Z) (data : list Z) : frec * wlog :=
+  match find_dd (f_blocks fr) tag ref with
+  | None => (fr, [])
+  | Some (bi, i) =>
+      match nth_error (f_blocks fr) bi with
+      | None => (fr, [])
+      | Some mb =>
+          match nth_error (b_dds (m_blk mb)) i with
+          | None => (fr, [])
+          | Some d =>
+              let '(fr1, w1) := update_dd fr bi i (mkdd (d_tag d) (d_ref d) INVALID_OFFSET INVALID_LENGTH) in
+              let '(off, fr2, w2) := getdiskblock fr1 len in
+              let '(fr3, w3) := update_dd fr2 bi i (mkdd (d_tag d) (d_ref d) off len) in
+              match data with
+              | [] => (fr3, w1 ++ w2 ++ w3)
+              | _ => let e := off + zlen data in
+                     (if f_end fr3 <? e then set_end fr3 e else fr3, w1 ++ w2 ++ w3 ++ [(off, data)])
+              end
+          end
+      end
+  end.
+
 (** HTPsync: every dirty block, head to tail: header, then the whole DD list *)
 Definition block_writes (b : block) : wlog :=
   [(b_off b, enc_hdr (b_ndds b) (b_next b)); (b_off b + hdr_sz, enc_dds (b_dds b))].
@@ -275,7 +300,8 @@ Inductive op :=
 | OpPutNew (tag len : Z) (data : list Z)
 | OpDel (tag ref : Z)
 | OpGet
-| OpCopy (tag ref len : Z) (data : list Z).
+| OpCopy (tag ref len : Z) (data : list Z)
+| OpRewrite (tag ref len : Z) (data : list Z).
 
 Definition run_op (fr : frec) (o : op) : frec * wlog :=
   match o with
@@ -285,6 +311,7 @@ Definition run_op (fr : frec) (o : op) : frec * wlog :=
   | OpDel t r => op_del fr t r
   | OpGet => op_get fr
   | OpCopy t r l d => op_copy fr t r l d
+  | OpRewrite t r l d => op_rewrite fr t r l d
   end.
 
 Fixpoint run_ops (fr : frec) (ops : list op) : frec * wlog :=
@@ -327,8 +354,15 @@ Definition op_ok (o : op) : bool :=
   | OpGet => true
   | OpCopy t r l d => (0 <=? t) && (t <? 65536) && negb (t =? DFTAG_NULL) && (0 <=? r) && (r <? 65536) &&
                       (0 <=? l) && (zlen d <=? l) && byte_list_ok d
+  | OpRewrite _ _ _ _ => false
   end.
 
 (** the wider class of the first sentence of the property: deletions of old elements are allowed too
-    (delete-then-append, as SDend does with its metadata) *)
-Definition op_ok1 (o : op) : bool := match o with OpDel _ _ => true | _ => op_ok o end.
+    (delete-then-append, as SDend does with its metadata), and so are rewrites of existing records through
+    descriptor reuse (Vdetach / VSdetach) *)
+Definition op_ok1 (o : op) : bool :=
+  match o with
+  | OpDel _ _ => true
+  | OpRewrite _ _ l d => (0 <=? l) && (zlen d <=? l)
+  | _ => op_ok o
+  end.
